@@ -324,7 +324,12 @@ def callee(pkg: Pkg, fn: Fn, call: ast.Call) -> Fn | None:
     if isinstance(f, ast.Name):
         f = fn.resolve(f)
     if isinstance(f, ast.Name):
-        if f.id in fn.node_locals():
+        nested = [n for n in ast.walk(fn.node) if isinstance(n, ast.FunctionDef) and n is not fn.node and n.name == f.id]
+        if len(nested) == 1 and f.id not in fn.node_locals():
+            g = Fn(fn.mod, fn.cls, nested[0])       # a function defined inside this one
+            g.key = (fn.mod.rel, fn.cls, f"{fn.node.name}.<locals>.{f.id}")
+            return g
+        if f.id in fn.node_locals() or nested:
             return None
         if f.id in fn.mod.funcs:
             return Fn(fn.mod, None, fn.mod.funcs[f.id])
@@ -565,11 +570,63 @@ def _with_kind(fn: Fn, it: ast.withitem) -> str:
     return "unknown"
 
 
+def _package_manager(pkg: Pkg, fn: Fn, it: ast.withitem):
+    """A context manager DEFINED IN THE PACKAGE, read instead of trusted: ("generator", Fn) for a function decorated
+    with contextlib.contextmanager (its body is then read like a helper on the path: a try around its `yield` sees the
+    exception of the with body), ("class", ok) for a class whose __exit__ returns nothing / None / False on every path
+    (ok = True: it cannot suppress)."""
+    e = fn.resolve(it.context_expr)
+    if not isinstance(e, ast.Call):
+        return None
+    f = fn.resolve(e.func) if isinstance(e.func, ast.Name) else e.func
+    target_mod, target = None, None
+    if isinstance(f, ast.Name) and f.id not in fn.node_locals():
+        if f.id in fn.mod.funcs or f.id in fn.mod.classes:
+            target_mod, target = fn.mod, f.id
+        else:
+            imp = fn.mod.imports.get(f.id)
+            if imp is not None and imp[1] is not None:
+                target_mod, target = _defining_module(pkg, imp[0], imp[1])
+    elif isinstance(f, ast.Attribute) and isinstance(f.value, ast.Name) and f.value.id in fn.mod.imports \
+            and f.value.id not in fn.node_locals():
+        imp = fn.mod.imports[f.value.id]
+        target_mod, target = _defining_module(pkg, imp[0] if imp[1] is None else imp[0] + "." + imp[1], f.attr)
+    if target_mod is None:
+        return None
+    if target in target_mod.funcs:
+        node = target_mod.funcs[target]
+        decos = {(_manager_name(d) if not isinstance(d, ast.Call) else _manager_name(d.func)) for d in node.decorator_list}
+        g = Fn(target_mod, None, node)
+        if {g.original(d) for d in decos} & {"contextmanager"}:
+            return ("generator", g)
+        return None
+    if target in target_mod.classes:
+        r = target_mod.method(target, "__exit__")
+        if r is None:
+            return None
+        rets = [n for n in _walk_scope(r[1].body) if isinstance(n, ast.Return)]
+        ok = all(n.value is None or (isinstance(n.value, ast.Constant) and n.value.value in (None, False)) for n in rets)
+        return ("class", ok)
+    return None
+
+
+def _defining_module(pkg: Pkg, modname: str, name: str, depth: int = 0):
+    m = pkg.mod_by_name(modname)
+    if m is None:
+        return None, None
+    if name in m.funcs or name in m.classes:
+        return m, name
+    if depth < 3 and name in m.imports and m.imports[name][1] is not None:
+        return _defining_module(pkg, m.imports[name][0], m.imports[name][1], depth + 1)
+    return None, None
+
+
 def _only_imports(body: list[ast.stmt]) -> bool:
     return bool(body) and all(isinstance(s, (ast.Import, ast.ImportFrom)) for s in body)
 
 
-def _constructs(pkg: Pkg, fn: Fn, qual: str, stmts: list[ast.stmt], shapes: list, rows: list):
+def _constructs(pkg: Pkg, fn: Fn, qual: str, stmts: list[ast.stmt], shapes: list, rows: list, depth: int = 0,
+                done: set | None = None):
     """The try / with statements of a block, nested definitions included; the bodies of handlers and of finally
     blocks are judged through their handler / finally block (see the note at the top of this section)."""
     for st in stmts:
@@ -584,8 +641,8 @@ def _constructs(pkg: Pkg, fn: Fn, qual: str, stmts: list[ast.stmt], shapes: list
                 rows.append((qual, a, r))
             if st.finalbody:
                 shapes.append(f"SFinally {b(_leaves(st.finalbody))}")
-            _constructs(pkg, fn, qual, st.body, shapes, rows)
-            _constructs(pkg, fn, qual, st.orelse, shapes, rows)
+            _constructs(pkg, fn, qual, st.body, shapes, rows, depth, done)
+            _constructs(pkg, fn, qual, st.orelse, shapes, rows, depth, done)
             continue
         if isinstance(st, (ast.With, ast.AsyncWith)):
             for it in st.items:
@@ -596,15 +653,27 @@ def _constructs(pkg: Pkg, fn: Fn, qual: str, stmts: list[ast.stmt], shapes: list
                 elif kind == "ok":
                     shapes.append("SWith false")
                 else:
-                    fail(st, f"{qual}: context manager not known to propagate exceptions")
+                    pm = _package_manager(pkg, fn, it)
+                    if pm is not None and pm[0] == "generator" and depth < MAX_DEPTH:
+                        shapes.append("SWith false")        # what it does with the exception: its own constructs
+                        if pm[1].key not in _LISTED and (done is None or pm[1].key not in done):
+                            if done is not None:
+                                done.add(pm[1].key)
+                            _constructs(pkg, pm[1], qual, pm[1].node.body, shapes, rows, depth + 1, done)
+                    elif pm is not None and pm[0] == "class":
+                        shapes.append(f"SWith {b(not pm[1])}")
+                        if not pm[1]:
+                            rows.append((qual, False, False))
+                    else:
+                        fail(st, f"{qual}: context manager not known to propagate exceptions")
         # every block below this statement (loops, if/else, match cases, with bodies, nested definitions)
         for field in ("body", "orelse"):
             sub = getattr(st, field, None)
             if isinstance(sub, list) and sub and isinstance(sub[0], ast.stmt):
-                _constructs(pkg, fn, qual, sub, shapes, rows)
+                _constructs(pkg, fn, qual, sub, shapes, rows, depth, done)
         if hasattr(ast, "Match") and isinstance(st, ast.Match):
             for case in st.cases:
-                _constructs(pkg, fn, qual, case.body, shapes, rows)
+                _constructs(pkg, fn, qual, case.body, shapes, rows, depth, done)
         # definitions nested in expressions cannot contain statements (lambda), so nothing else to visit
 
 
@@ -642,7 +711,8 @@ def closure(pkg: Pkg, fn: Fn) -> list[Fn]:
         for g in helpers_called(pkg, f, _path_part(f.node.body)):
             if g.key not in seen:
                 seen.add(g.key)
-                out.append(g)
+                if "<locals>" not in g.key[2]:      # a nested definition is read as part of its parent
+                    out.append(g)
                 visit(g, depth + 1)
     visit(fn, 0)
     return out
@@ -682,7 +752,8 @@ def shapes_of(pkg: Pkg, fn: Fn, qual: str):
     """([shape text], [round-1 handler rows], names referred to) of one listed function, the helpers on the path
     through it included."""
     shapes, rows = [], []
-    _constructs(pkg, fn, qual, fn.node.body, shapes, rows)
+    done: set = set()
+    _constructs(pkg, fn, qual, fn.node.body, shapes, rows, 0, done)
     names = _names(fn.node, fn)
     simple = {_simple(g) for g in FUNCS if _simple(g) is not None} | LAZY
     for g in closure(pkg, fn):
@@ -690,8 +761,9 @@ def shapes_of(pkg: Pkg, fn: Fn, qual: str):
         names |= gnames
         on_path = (qual in LIB_SOURCES or bool(gnames & simple) or _yields(g.node)
                    or any(_names(x.node, x) & simple or _yields(x.node) for x in closure(pkg, g)))
-        if on_path:
-            _constructs(pkg, g, qual, g.node.body, shapes, rows)
+        if on_path and g.key not in done:
+            done.add(g.key)
+            _constructs(pkg, g, qual, g.node.body, shapes, rows, 0, done)
     return shapes, rows, names
 
 
